@@ -32,7 +32,8 @@ def main():
             continue
         path = os.path.join(HERE, k['replay'])
         res = {}
-        for label, rev in (('before', k['commit'] + '^'), ('after', k['commit'])):
+        for label, rev in (('before', k['commit'] + '^'), ('after', k.get('passes_at', k['commit']))):
+            # passes_at: the stored history also runs into a second defect repaired by a later commit
             wt = '/tmp/wt_verify_%s_%s' % (k['id'], label)
             sh('git', '-C', '/repo', 'worktree', 'remove', '--force', wt)
             r = sh('git', '-C', '/repo', 'worktree', 'add', '--detach', wt, rev)
